@@ -58,6 +58,15 @@ def positions(ctx):
     return pts
 
 
+def with_datetime(path, m0, m1, e0, e1, *rest):
+    """same call with datetime timestamps (epoch seconds given as floats, sub-second resolution)"""
+    import datetime
+    import run
+    t0 = datetime.datetime.fromtimestamp(e0, datetime.timezone.utc)
+    t1 = datetime.datetime.fromtimestamp(e1, datetime.timezone.utc)
+    return run.resolve(path)(m0, m1, t0, t1, *rest)
+
+
 def cases(ctx):
     rng = ctx.rng
     for (la, lo) in positions(ctx):
@@ -92,6 +101,13 @@ def cases(ctx):
                         op = "airborne_" + op
                     yield dict(op=op, real=(fn, list(a)), pred=pred, expect=exp, tag="pair" if same_nl else "nl-differs",
                                trivial=not same_nl, info=dict(lat=la, lon=lo))
+                    if rng.random() < 0.15:
+                        # datetime timestamps less than a second apart (same whole second most of the time)
+                        base = 1.7e9 + rng.randrange(10 ** 6)
+                        d = rng.choice([0.001, 0.25, 0.5, 0.999])
+                        ea, eb = (base, base + d) if a[3] > a[2] else (base + d, base)
+                        yield dict(op=None, real=("h:props.C03.with_datetime", [fn, a[0], a[1], ea, eb]), pred=pred, expect=exp,
+                                   tag="pair-datetime", trivial=not same_nl, info=dict(lat=la, lon=lo))
     # same parity -> RuntimeError ; TC routing
     for _ in range(ctx.n(200, 2000)):
         la, lo = rng.uniform(-80, 80), rng.uniform(-180, 180)
